@@ -210,6 +210,18 @@ def module_constants(mod):
                     env.pop(name, None)
                     continue
                 env[name] = fold(st.value, env)
+            elif isinstance(st, ast.Assign) and len(st.targets) == 1 and isinstance(st.targets[0], (ast.Tuple, ast.List)) and isinstance(st.value, (ast.Tuple, ast.List)) \
+                    and len(st.targets[0].elts) == len(st.value.elts) and all(isinstance(x, ast.Name) for x in st.targets[0].elts):
+                # A, B = 'x', 'y'
+                for tn, tv in zip(st.targets[0].elts, st.value.elts):
+                    if tn.id in env or tn.id in rebound:
+                        rebound.add(tn.id)
+                        env.pop(tn.id, None)
+                        continue
+                    try:
+                        env[tn.id] = fold(tv, env)
+                    except Unfoldable:
+                        pass
             elif isinstance(st, ast.AnnAssign) and isinstance(st.target, ast.Name) and st.value is not None:
                 if st.target.id not in rebound:
                     env[st.target.id] = fold(st.value, env)
